@@ -124,6 +124,14 @@ FOCUS[12] = ("- THIS ROUND'S FOCUS: the shape of the data and the environment. A
              "defaults, environment variables, the working directory, dict / set / os.listdir ordering, the interpreter's hash seed, what "
              "was imported or configured earlier in the process (logging, warnings filters, matplotlib backend).")
 
+FOCUS[13] = ("- THIS ROUND'S FOCUS: ONE change only (directory `a`; ignore `b`), finished within about 8 minutes - keep it small. It must be a "
+             "change made of TWO cooperating edits that each look harmless alone (for example a value cached / memoised in one place and an "
+             "invalidation forgotten in another; a default changed in one class and relied on in a second; a helper made to return a rounded / "
+             "sorted / de-duplicated / truncated result while one caller needs the raw one; a loop turned into a comprehension that drops the "
+             "last / first / repeated element; state kept on the class instead of the instance), and it must need a MULTI-STEP history to "
+             "manifest: at least three public operations of different kinds, or a backtest of at least two rebalances, where the first "
+             "occurrences are all still right.")
+
 
 def rnd_of(i):
     m = re.search(r'-r(\d+)$', i)
